@@ -1,5 +1,6 @@
 import PQ.Model.IO
 import PQ.Model.Reader
+import PQ.Model.Fault
 /-!
 # C10 — a failed read or seek never turns into silently wrong rows
 
@@ -9,8 +10,12 @@ import PQ.Model.Reader
   `p.err` and returns false).
 * `checked_fault_reported` (C09) then gives: a failure of any I/O step of an API call is reported
   by that call.
-* `next_sticky`: once the reader model is in the error state, `Next` stays false — no further rows
-  are delivered.
+* `next_reports`: a failing row-group load makes `Next` return false with the sticky error set.
+* `next_within_rowgroup_src_indep`, `inside_not_touching`, `nextF_not_touching`: `Next` inside a loaded row
+  group never looks at the source, so a failing source can only act in the constructor and in the `Next`
+  calls that load a row group; `nextF_fault`, `next_load_error_eq_fault`: such a call returns false with the
+  error set and delivers nothing of the row group it could not load.
+* whole-file statement: `PQ.readOutcomeF_specWrite` (PQ/Lemmas/FaultRT.lean) when present in the evidence.
 The correspondence run enumerates every failing call index `k` and compares the implementation's
 outcome with the outcome predicted from the fault-free trace.
 -/
@@ -28,5 +33,46 @@ theorem next_reports (st : RState) (h : ¬ (!st.err ∧ st.cursor ≥ st.rows)) 
     (hf : st.readRowGroup = .error .err) : st.next = .ok (false, { st with err := true }) := by
   unfold RState.next
   rw [if_neg h, if_pos hc, hf]
+
+/-! ## the fault model (`PQ/Model/Fault.lean`): where a failing source can act, and what the failing call does -/
+
+/-- `Next` inside a loaded row group does not look at the source: whatever the source is (failing or not),
+the call has the same result -/
+theorem next_within_rowgroup_src_indep (st : RState) (s : Src) (h : st.rgCursor < st.rgCount) :
+    ({ st with src := s } : RState).next =
+      (match st.next with
+       | .ok (b, st') => .ok (b, { st' with src := s })
+       | .error e => .error e) := by
+  have hn : ¬ (st.rgCursor ≥ st.rgCount) := by omega
+  unfold RState.next
+  simp only [hn, if_false]
+  split <;> rfl
+
+/-- such a call is not a source-touching call of the fault model -/
+theorem inside_not_touching (st : RState) (h : st.rgCursor < st.rgCount) : st.touches = false := by
+  have hn : ¬ (st.rgCursor ≥ st.rgCount) := by omega
+  simp [RState.touches, hn]
+
+/-- a `Next` that does not touch the source is unaffected by the fault counter -/
+theorem nextF_not_touching (st : RState) (k : Nat) (h : st.touches = false) : st.nextF k = (st.next, k) := by
+  simp [RState.nextF, h]
+
+/-- the failing call: `Next` returns false and the error is set; the state is otherwise unchanged, so no
+row of the row group that could not be loaded is delivered -/
+theorem nextF_fault (st : RState) (h : st.touches = true) :
+    st.nextF 0 = (.ok (false, { st with err := true }), 0) := by
+  simp [RState.nextF, h]
+
+/-- the model's own error path agrees with the fault model: when the load of the next row group returns an
+error, `Next` answers exactly as `nextF` does for a failing source -/
+theorem next_load_error_eq_fault (st : RState) (h : st.touches = true) (hf : st.readRowGroup = .error .err) :
+    (st.next, 0) = st.nextF 0 := by
+  rw [nextF_fault st h]
+  simp only [RState.touches, Bool.and_eq_true, Bool.not_eq_true', decide_eq_true_eq] at h
+  obtain ⟨⟨h1, h2⟩, _⟩ := h
+  have h1' : ¬ ((!st.err) = true ∧ st.cursor ≥ st.rows) := by
+    intro ⟨a, b⟩; simp [a, b] at h1
+  unfold RState.next
+  rw [if_neg h1', if_pos h2, hf]
 
 end PQ.C10
